@@ -15,7 +15,7 @@
    about it assume a canonical COO, whose linearised keys are pairwise distinct, so every sorting
    permutation is the same. *)
 From Coq Require Import ZArith List Bool.
-From Verif Require Import Py Shape COO GCXS.
+From Verif Require Import Py Shape COO GCXS S_convert.
 Import ListNotations.
 Open Scope Z_scope.
 
@@ -98,6 +98,25 @@ Definition ravel_k (arr : idx) (sh : shape) : Z := ravel_k_go arr (tl sh) 0.
 Definition is_nil {A} (l : list A) : bool := match l with [] => true | _ => false end.
 
 Definition zlist_eqb : list Z -> list Z -> bool := idx_eqb.
+
+(* ------------------------------------------------------------------ index dtype of the compressed arrays *)
+(* _from_coo writes row numbers, indices and pointers into arrays of dtype idx_dtype by plain array
+   assignment (values that do not fit wrap silently).  The dtype is either the given one — then
+   can_store(idx_dtype, E3) was checked —, or the coordinate dtype if can_store(it, E1), or
+   np.min_scalar_type(E2): in every case it holds every v with 0 <= v <= the capacity below.  E1, E2, E3
+   (and E4 of _transpose, through get_out_dtype) are extracted from the source: Gen/S_convert.v. *)
+Definition from_coo_capacity (sh : shape) (ca : list Z) (nnz : Z) : Z :=
+  let rsh := reordered_shape sh ca in
+  let rs := row_size sh ca in
+  let cs := col_size sh ca in
+  Z.min (Z.min (s_from_coo_auto_check sh rsh [rs; cs] rs cs nnz) (s_from_coo_auto_choose sh rsh [rs; cs] rs cs nnz))
+        (s_from_coo_explicit_check sh rsh [rs; cs] rs cs nnz).
+
+Definition transpose_capacity (sh : shape) (new_ca : list Z) (nnz : Z) : Z :=
+  s_transpose_bound sh (reordered_shape sh new_ca) [row_size sh new_ca; col_size sh new_ca]
+                    (row_size sh new_ca) (col_size sh new_ca) nnz.
+
+Definition fitsb (cap : Z) (l : list Z) : bool := forallb (fun v => (0 <=? v) && (v <=? cap)) l.
 
 (* check_compressed_axes after normalize_axis: non-empty, sorted without repeats, in range, not all axes *)
 Definition caxes_checkb (ndim : Z) (ca : list Z) : bool :=
